@@ -310,12 +310,18 @@ func NewDB(opts *DBOpts) (*DB, error) {
 
 // FlushAll flushes all tables
 func (db *DB) FlushAll() {
-	db.tablesMutex.Lock()
-	for name, table := range db.tables {
-		db.log.Debugf("Force flushing table: %v", name)
+	// Don't hold tablesMutex while flushing: the flush itself needs it (see
+	// table.shouldSort), which deadlocked whenever a memory cap was configured.
+	db.tablesMutex.RLock()
+	tables := make([]*table, 0, len(db.tables))
+	for _, table := range db.tables {
+		tables = append(tables, table)
+	}
+	db.tablesMutex.RUnlock()
+	for _, table := range tables {
+		db.log.Debugf("Force flushing table: %v", table.Name)
 		table.forceFlush()
 	}
-	db.tablesMutex.Unlock()
 	db.log.Debug("Done force flushing tables")
 }
 
